@@ -102,7 +102,11 @@ PROVED = {
          "the strict reader yields exactly the written tags (masters as Start/End pairs), then None. Reader half (C01_reader_roundtrip_partial) holds for "
          "any encoding choices incl. non-canonical payloads, with offsets; proved by nested induction on the tree with the lazily emitted Ends as an "
          "invariant over the reader's stack; transferred to the buffered machine for every capacity and chunking. PARTIAL: declared paths without "
-         "global placeholders. C01_full_roundtrip_partial: the same with masters given as Full items. Raw tags, global elements and destination write scripts are covered by the "
+         "global placeholders. C01_full_roundtrip_partial: the same with masters given as Full items. C01_reader_roundtrip_known_partial (Proofs/RoundTripKnown.v): "
+         "complementary class — every master of known size, declared paths with global placeholders ALLOWED (global elements at any depth, recursive "
+         "masters): the reader yields exactly the document's items, provided the first placeholder-free element is a top-level one (needed only for "
+         "specifications that are not derive-consistent: a child whose path omits its global parent's placeholder; counterexample exhibited). Raw tags, "
+         "global elements below unknown-size masters (inherently ambiguous) and destination write scripts (C09_script_irrelevant) are covered by the "
          "correspondence run (write-then-read of random conformant documents incl. boundary payload lengths, widths, Full, unknown sizes, raw tags).", ""),
  "C02": ("PARTIAL. Theorem C02_fixpoint_partial: for every strict configuration and every conforming document in ANY encoding (zero-padded or empty "
          "integers, 4-byte floats, any size width incl. 8-byte fields, any subset of unknown-size masters closed by a following element or EOF), the "
